@@ -590,7 +590,7 @@ pub fn run(args: &Args) -> Report {
     let mut report = Report::new("C06", "fault_enumeration");
     let rt = ConjureRuntime::new();
     let thorough = args.tier.is_thorough();
-    let k = args.tier.pick(2usize, 3usize);
+    let k = args.tier.pick(2usize, 5usize);
     if let Some(path) = &args.replay {
         return replay(path, report, &rt);
     }
